@@ -58,6 +58,9 @@ def run(tier, seed):
     rng = SplitMix64(seed)
     po = proof_obligations("WowVerif.Thm.C02", ["wowdrv"])
     add_proof_failures(rep, po)
+    po_b = proof_obligations("WowVerif.Thm.C02b")      # expect_any / expect_stream: the typed helpers asked for any type
+    add_proof_failures(rep, po_b)
+    po = dict(po, theorems=dict(po["theorems"], **po_b["theorems"]), obligations=po["obligations"] + po_b["obligations"], discharged=po["discharged"] + po_b["discharged"])
     drv = driver_path()
     # ---- T-gen: constants the model shares with the code
     consts_seen = {}
@@ -113,17 +116,17 @@ def run(tier, seed):
                         continue
                     reads.append(f"rframe {exp} {d} {api} {hdr} {ln + dl} {rng.below(256)} {extra}")
                     rmeta.append((exp, d, api, len(hdr) // 2, ln, dl, extra))
-    mo2 = run_parallel(drv, [r_ if " expectother " not in r_ else "noop" for r_ in reads], jobs=12)
+    mo2 = run_parallel(drv, reads, jobs=12)
     ho2 = run_parallel(har, reads, jobs=12)
     for (exp, d, api, hl, ln, dl, extra), rq, a, h in zip(rmeta, reads, mo2, ho2):
         bad = None
         if api == "expectother":
-            # the typed helper asked for another message type: opcode error, and exactly the announced bytes consumed (oracle from the
-            # property statement; this path is not in the Lean model)
+            # the typed helper asked for another message type: opcode error, and exactly the announced bytes consumed
+            # (Model/FrameExpect.lean, theorems expect_any / expect_stream)
             mo_ = re.match(r"err opcode (\d+) (\d+) consumed=(\d+)", h)
-            if not mo_ or int(mo_.group(3)) != hl + ln:
+            if (not mo_ or int(mo_.group(3)) != hl + ln) or a != h:
                 rep.violation(f"C02/{exp}-{d}/read-expect-other", f"{exp} {d} expect helper asked for another message type than the {ln}-byte message on the stream: '{h}' (must report the opcode and consume {hl + ln} bytes)",
-                              {"input": rq, "implementation": h, "replay_cmd": f"echo '{rq}' | {har}"})
+                              {"input": rq, "implementation": h, "model": a, "replay_cmd": f"echo '{rq}' | {har}"})
             continue
         m = re.match(r"ok op=(\d+) bodylen=(\d+) bodyok=(\d) consumed=(\d+)", h)
         if ln <= 65535:
@@ -149,7 +152,7 @@ def run(tier, seed):
                     ls = [rng.choice(pool) if rng.below(3) == 0 else rng.below(300) for _ in range(k)]
                     seqs.append(f"seq {exp} {d} {api} {','.join(map(str, ls))}")
                     smeta.append((exp, d, api, ls))
-    mo3 = run_parallel(drv, [q_.replace(" expectother ", " expect ") for q_ in seqs], jobs=12)
+    mo3 = [re.sub(r" skip@", " SKIP@", x) for x in run_parallel(drv, seqs, jobs=12)]
     ho3 = [re.sub(r" skip@", " SKIP@", x) for x in run_parallel(har, seqs, jobs=12)]
     for (exp, d, api, ls), rq, a, h in zip(smeta, seqs, mo3, ho3):
         hl = lambda n: (3 if (exp == "wrath" and d == "server" and n + 2 > 0x7FFF) else 2) + (4 if d == "client" else 2)
@@ -161,7 +164,7 @@ def run(tier, seed):
         if h != want:
             rep.violation(f"C02/{exp}-{d}/stream-{api}", f"a concatenation of {len(ls)} written messages does not decode to the same sequence: got '{h[:200]}', want '{want[:200]}'",
                           {"input": rq, "implementation": h, "expected": want, "model": a, "replay_cmd": f"echo '{rq}' | {har}"})
-        elif api != "expectother" and a != h:      # the skip path is outside the Lean model (oracle: the property statement)
+        elif a != h:
             rep.violation(f"C02/correspondence/{exp}-{d}/stream-{api}", f"model and implementation differ on '{rq[:100]}'", {"request": rq, "model": a, "implementation": h}, no_input=True)
     # ---- the encrypted variants of every reader/writer at the header-form boundaries (sequences of two messages)
     ereqs, emeta = [], []
